@@ -346,6 +346,9 @@ func (sr *SRun) exec(so SOp) (res OpResult) {
 		for _, p := range o.Post {
 			td.Postings = append(td.Postings, ledger.NewPosting(p.Src, p.Dst, p.Asset, new(big.Int).Set(p.Amt)))
 		}
+		if o.TS != nil { // (the schema histories never set it; the bulk tie does)
+			td.Timestamp.Time = tsOf(*o.TS)
+		}
 		rs := ledgercontroller.TxToScriptData(td, o.Force)
 		if so.Tpl != "" {
 			rs.Script = ledgercontroller.Script{Template: so.Tpl, Vars: map[string]string{}}
